@@ -168,7 +168,7 @@ def _schedule(tree):
     out += _pairs("specialBranches", [(t, b) for _, t, b in sorted(branches)],
                   "(isinstance test, what is done with the value) in _process_special_cases")
     ast_ = find_func(cr, "_at_start_time")
-    out += _strs("atStartTime", [ast.unparse(n.value) for n in ast.walk(ast_) if isinstance(n, ast.Return)],
+    out += _strs("atStartTime", [ast.unparse(n) for n in ast_.body if not (isinstance(n, ast.Expr) and isinstance(n.value, ast.Constant))],
                  "a date-valued argument: that date at the start's time of day in the start's zone")
     # frequency / weekday names
     def names_of(const):
